@@ -80,6 +80,13 @@ def gen_base(rng: Any, max_ops: int = 28) -> List[str]:
             progress()
     # phase 2: activity from both sides
     ops = ['write', 'write', 'write', 'eof', 'eof', 'close', 'close', 'abort', 'pause', 'resume', 'resume', 'exit']
+    if rng.random() < 0.35:
+        # small write-buffer limits: one-byte writes reach the high-water mark, writers wait in drain()
+        for side in rng.choice(['c', 's', 'cs']):
+            for i in range(nopen):
+                hi = rng.choice([0, 1, 1, 2, 3])
+                body.append(f'op {side} {i} limits {hi} {rng.randint(0, hi)}')
+        ops = ops + ['write', 'write', 'drain', 'drain']
     for _ in range(rng.randint(2, max_ops)):
         r = rng.random()
         if r < 0.55:
@@ -214,6 +221,81 @@ def startup_scenarios(rng: Any, n: int) -> List[Tuple[str, List[str]]]:
         # the connection stays in use afterwards
         if rng.random() < 0.5:
             body += [f'open 0 0 exec 1 0'] + SYNC * 4 + [f'op {rng.choice("cs")} 1 close'] + SYNC * 2
+        out.append((name, lines + body))
+    return out
+
+
+FLOW_TEMPLATES = ['mutual-close', 'mutual-close-paused', 'drain-peer-close', 'mutual-close', 'drain-peer-close',
+                  'mutual-close-paused', 'drain-peer-eof-close', 'mutual-close-one-aborts']
+
+
+def flow_scenarios(rng: Any, n: int) -> List[Tuple[str, List[str]]]:
+    """Scripts (header + body, no epilogue) around flow control at the end of a channel's life: both applications
+    close while each still has more to send than the other's window allows (nothing delivered in between), the same
+    with both readers paused on a full window, and a writer waiting in drain() behind a full window when the peer's
+    CLOSE arrives while its own reader still holds undelivered data."""
+    out: List[Tuple[str, List[str]]] = []
+    for k in range(n):
+        name = FLOW_TEMPLATES[k % len(FLOW_TEMPLATES)]
+        w = rng.choice([1, 2, 3, 4])
+        lines = [f'reset {w}', f'scfg accept 1 1 {int(rng.random() < 0.7)} 0', 'scfg accept 1 1 1 0',
+                 'scfg accept 1 1 1 0', 'pfmode refuse', 'pfmode refuse']
+        body = [f'open 0 0 {rng.choice(["exec", "shell", "subsystem"])} {int(rng.random() < 0.7)} 0']
+        for _ in range(5):
+            body += SYNC
+        if rng.random() < 0.5:
+            body += ['wc c 0', 'wc s 0']
+        if name.startswith('mutual-close'):
+            first = rng.choice('cs')
+            second = 's' if first == 'c' else 'c'
+            if name == 'mutual-close-paused':
+                body += ['op c 0 pause', 'op s 0 pause']
+                body += ['op c 0 write'] * w + ['op s 0 write'] * w
+                for _ in range(w + 1):
+                    body += SYNC                     # each reader now sits on a full window of undelivered data
+                k1, k2 = rng.randint(1, 3), rng.randint(1, 3)
+            else:
+                k1, k2 = w + rng.randint(1, 3), w + rng.randint(1, 3)
+            if rng.random() < 0.4:
+                body += [f'op {first} 0 limits {rng.choice([0, 1])} 0']
+            body += [f'op {first} 0 write'] * k1
+            if rng.random() < 0.4:
+                body += [f'op {first} 0 drain']
+            if rng.random() < 0.3:
+                body += [f'op {first} 0 eof']
+            body += [f'op {second} 0 write'] * k2
+            fin2 = 'abort' if name == 'mutual-close-one-aborts' else rng.choice(['close', 'close', 'exit'])
+            if fin2 == 'exit' and second == 'c':
+                fin2 = 'close'
+            order = [(first, 'close'), (second, fin2)]
+            if rng.random() < 0.5:
+                order.reverse()
+            body += [f'op {sd} 0 {o}' for sd, o in order]
+            for _ in range(3 * w + 10):
+                body += SYNC
+        else:
+            x = rng.choice('cs')
+            y = 's' if x == 'c' else 'c'
+            hi = rng.choice([0, 1, 2])
+            body += [f'op {x} 0 limits {hi} {rng.randint(0, hi)}', f'op {x} 0 pause', f'op {y} 0 pause']
+            m = rng.randint(1, w)
+            body += [f'op {y} 0 write'] * m
+            for _ in range(m + 1):
+                body += SYNC                         # x's reader holds m undelivered packets
+            body += [f'op {x} 0 write'] * (w + hi + rng.randint(1, 3))      # window used up, buffer past the mark
+            body += [f'op {x} 0 drain'] * rng.choice([1, 1, 2])
+            for _ in range(w + 1):
+                body += SYNC
+            fin = ['close'] if name == 'drain-peer-close' else ['eof', 'close']
+            if y == 's' and rng.random() < 0.3:
+                fin = ['exit']
+            body += [f'op {y} 0 {o}' for o in fin]
+            for _ in range(3):
+                body += SYNC
+            body += [f'op {x} 0 drain'] if rng.random() < 0.3 else []
+            body += [f'op {x} 0 ' + rng.choice(['resume', 'resume', 'close', 'abort'])]
+            for _ in range(4):
+                body += SYNC
         out.append((name, lines + body))
     return out
 
